@@ -299,18 +299,49 @@ static void vf_init(void)
 	atexit(vf_atexit);
 }
 
+#ifdef VF_WRAP
+extern char *__real_realpath(const char *, char *);
+#define SHIM_REALPATH __real_realpath
+#else
+#define SHIM_REALPATH realpath
+#endif
+
+/* absolute, normalised form of a path whose last component need not exist */
+static const char *norm_path(const char *path, char *buf, size_t bufsz)
+{
+	char dir[4096], res[4096];
+	const char *base = strrchr(path, '/');
+	size_t dl;
+
+	if (path[0] == '/' && strstr(path, "/../") == NULL && strstr(path, "/./") == NULL)
+		return path;
+	if (base == NULL) {
+		dir[0] = '.';
+		dir[1] = '\0';
+		base = path;
+	} else {
+		dl = (size_t)(base - path);
+		if (dl == 0)
+			dl = 1;
+		if (dl >= sizeof(dir))
+			return path;
+		memcpy(dir, path, dl);
+		dir[dl] = '\0';
+		base += 1;
+	}
+	if (SHIM_REALPATH(dir, res) == NULL)
+		return path;
+	snprintf(buf, bufsz, "%s/%s", strcmp(res, "/") == 0 ? "" : res, base);
+	return buf;
+}
+
 static int side_of_path(const char *path)
 {
 	char abs[8192];
 
 	if (out_prefix == NULL || path == NULL)
 		return S_IN;
-	if (path[0] != '/') {                    /* rdsquashfs chdir()s into the unpack root and uses relative names */
-		if (getcwd(abs, 4096) == NULL)
-			return S_IN;
-		snprintf(abs + strlen(abs), sizeof(abs) - strlen(abs), "/%s", path);
-		path = abs;
-	}
+	path = norm_path(path, abs, sizeof(abs));    /* relative names are resolved against the *current* directory */
 	if (strncmp(path, out_prefix, strlen(out_prefix)) == 0)
 		return S_OUT;
 	return S_IN;
